@@ -49,6 +49,12 @@ def gen(rng, tier):
   if rng.random() < 0.3:
     case['marker_binding'] = {'how': rng.choice(['text', 'api']),
                               'scope': rng.choice(['', '', 'mb', 'mb/deep'])}
+  case['reentered_scope'] = None
+  if rng.random() < 0.12:
+    case['reentered_scope'] = {'inner': rng.choice(['rb', 'rb/rc']),
+                               'how': rng.choice(['captured', 'captured',
+                                                  'scoped_configurable']),
+                               'body_raises': rng.random() < 0.3}
   return case
 
 
@@ -233,6 +239,60 @@ def run(case):
         v('C10.received_value', ['binding-holds-the-marker', 'other-scope'],
           'outside scope %r rq(1) gives %r, expected b=root-value' %
           (mb['scope'], got))
+  # ---- a scope that is entered a second time while it is still open (through
+  # the list `with config_scope(...) as s` handed out, or through a scoped
+  # configurable calling itself): leaving the inner activation leaves the outer
+  # one in force, and REQUIRED is filled from ITS binding
+  rs = case.get('reentered_scope')
+  if rs and not viol:
+    seen_rs = []
+
+    def _rs(x=gin.REQUIRED, depth=0):
+      seen_rs.append(x)
+      if depth:
+        with gin.config_scope(rs['inner']):
+          gin.get_configurable('ra/mm.rs.rs')(gin.REQUIRED, depth=depth - 1)
+      return x
+    _rs.__name__ = _rs.__qualname__ = 'rs'
+    rsf = gin.configurable('rs', module='mm.rs')(_rs)
+    try:
+      gin.bind_parameter('mm.rs.rs.x', 'root-x')
+      gin.bind_parameter('ra/mm.rs.rs.x', 'ra-x')
+      got = None
+      if rs['how'] == 'captured':
+        with gin.config_scope('ra') as held:
+          try:
+            with gin.config_scope(rs['inner']):
+              with gin.config_scope(held):
+                if rs['body_raises']:
+                  raise KeyError('inside the re-entered scope')
+          except KeyError:
+            pass
+          got = rsf(gin.REQUIRED)
+      else:
+        got = gin.get_configurable('ra/mm.rs.rs')(gin.REQUIRED, depth=1)
+        got = seen_rs[0]
+        with gin.config_scope('ra'):
+          with gin.config_scope(rs['inner']):
+            try:
+              gin.get_configurable('ra/mm.rs.rs')(gin.REQUIRED)
+            except Exception:  # pylint: disable=broad-except
+              pass
+          got = rsf(gin.REQUIRED)
+      log.add('reentered_scope', rs, got)
+      if got != 'ra-x':
+        v('C10.received_value', ['scope-entered-twice'],
+          'scope ra entered, %s entered inside it, ra entered again (%s) and '
+          'left: a call with the REQUIRED marker still inside the outer ra '
+          'receives %r, the binding under ra is ra-x' %
+          (rs['inner'], rs['how'], got))
+      if gin.current_scope() != []:
+        v('C10.received_value', ['scope-entered-twice', 'left-open'],
+          'scope after all blocks were left: %r' % (gin.current_scope(),))
+    except Exception as e:  # pylint: disable=broad-except
+      v('C10.call_succeeds', ['scope-entered-twice', type(e).__name__],
+        're-entered scope scenario %r raised %s: %s' %
+        (rs, type(e).__name__, probes.scrub(str(e))[:300]))
   seen = set()
   uniq = []
   for x in viol:
